@@ -110,6 +110,20 @@ def run(ctx) -> None:
                    short(c.args[0], 60) if c.args else "<none>", ", ".join(sorted(carriers))),
                construct="producersHaveOutputSinceDate(<cutoff>) <- launch time")
 
+    # (R1, order within a pass) the snapshot precedes the new-output test: a notification that lands after the output test of this
+    # pass must leave the decision to the next pass, which looks for output again
+    def _snap_nodes():
+        return [n for n in cfg.nodes if n.kind == "stmt" and isinstance(n.ast, ast.Assign) and len(n.ast.targets) == 1
+                and isinstance(n.ast.targets[0], ast.Name) and source.src(n.ast.value) == LIVE]
+    for c in since:
+        at = [n for n in cfg.nodes if n.ast is not None and n.kind in ("stmt", "test") and any(c is x for x in ast.walk(n.ast))]
+        ok = bool(at) and bool(_snap_nodes()) and all(cfg.every_path_to_passes(a_, gates=_snap_nodes()) for a_ in at)
+        ctx.ob("C13.R1-snapshot-before-launch", c, ok,
+               "the producers-finished flag is snapshotted before this new-output test" if ok else
+               "the new-output test runs BEFORE the producers-finished flag is snapshotted: a notification that lands between the two makes the "
+               "pass decide 'producers were finished when I started' on an output test made while they were not - with repeatRetries: 0 the "
+               "observer stops without any execution after the producers' last output", construct="new-output test <- after the snapshot")
+
     # snapshot variables: locals assigned exactly `self._producers_are_finished`
     snaps = {}
     for n in cfg.nodes:
@@ -443,6 +457,17 @@ def run(ctx) -> None:
              for v in ps)
     ctx.ob("C13.R4-notification-wiring", ps[0] if ps else si, ok, "the merged stream is built from every producer's notifyFinished" if ok else
            "the merged stream is no longer built from every producer's notifyFinished")
+    # ... of the producer COMPONENT: the engine's own notifyFinished also fires when a task exits and the controller is about to
+    # restart the producer (ResourceExhausted, SubmissionFailed) - the producer has not finished then
+    for v in ps:
+        tgt = v.generators[0].target.id if isinstance(v.generators[0].target, ast.Name) else None
+        comp_level = isinstance(v.elt, ast.Attribute) and v.elt.attr == "notifyFinished" and isinstance(v.elt.value, ast.Name) and v.elt.value.id == tgt
+        ctx.ob("C13.R4-notification-wiring", v, comp_level,
+               "the observer waits for the notifyFinished of the producer components (a restarted producer is not finished)" if comp_level else
+               "the observer subscribes to %s instead of the producer component's notifyFinished: the engine-level event also fires between two "
+               "launches of a producer that is being restarted, so the observer is told 'all producers finished' while one of them is about "
+               "to produce more output - it runs once more, succeeds and stops without ever seeing the restarted producer's final output"
+               % short(v.elt, 40), construct="producers-finished stream <- <producer component>.notifyFinished")
     npf = wf.func("ComponentState._notifyProducersFinished")
     calls = [c for c in source.calls_in(npf) if last_attr(c) == "notify_all_producers_finished"]
     c3 = CFG(npf)
